@@ -382,6 +382,11 @@ func ruleGlobals(c *Ctx, r *Report, prefix string) {
 				break
 			}
 		}
+		if problem != "" && c.frozenGlobal(gv) {
+			// every use is a load, or an element/field address (through any number of steps) that is
+			// only loaded from: a table
+			problem = ""
+		}
 		if problem != "" {
 			r.Fail(rule, key, c.Pos(gv.Pos()), fmt.Sprintf("package-level variable %s is mutable shared state: %s. Two independent reader/writer instances would share it (data race / cross-talk / nondeterminism)", gv.Name(), problem))
 		} else {
